@@ -8,6 +8,17 @@ COMMON_TRUSTED = [
 ]
 
 CHECKS = {
+    "C01": {
+        "harness": "c01", "level": "proof", "shortdeck": True,
+        "technique": "Coq theorems (evaluator strength = best five-card rule-book value; order embedding) over an executable bitwise model + per-run model/implementation correspondence and rule-book oracle",
+        "level_text": "Theorems over the executable model of the bitwise evaluator (coq/Model/Evaluator.v) against a rule-book specification written from the property text (coq/Spec/SpecPoker.v), parameterised by the enum order, kicker table, wheel and masks REGENERATED from the Rust source on every run; the model is replayed against the implementation on all 2,598,960 five-card hands plus structured 6/7-card hands and ordered pairs (quick), all six-card hands and the short-deck build (thorough); every implementation strength is also checked directly against the extracted specification (best5, cmp_spec).",
+        "level_note": "Trusted: Coq kernel + vm_compute, hand-written model (validated per run), translator, extraction + OCaml glue, harness. The hook Strength::verif_value exposes the private Ranking.",
+        "rule": "str: Strength::from(Hand) for every 5-card hand, structured 6/7-card hands (forced flushes, straights, wheels, pairs/trips/quads, random fill); cmp: Ord on pairs (random, one-card neighbours, shared boards). distinct = distinct input parts",
+        "exhaustive": {"quick": False, "thorough": False},
+        "explanation": "model strength compared field by field with the implementation's; implementation strength value compared with extracted best5; implementation order compared with extracted cmp_spec",
+        "trusted_base": ["Model/Evaluator.v hand written; Spec/SpecPoker.v written from the property text"],
+        "assumptions": ["hands are 5..7 distinct cards of the configured deck"],
+    },
     "C15": {
         "harness": "c15", "level": "proof",
         "technique": "Coq theorems (round trips, injectivity, key-set NoDup by reflection) over an executable codec model + per-run model/implementation correspondence on integer codes",
